@@ -18,8 +18,9 @@ the still-forming bucket may raise where the batch run, which never sees that in
 bucket, does not): the live candles equal the batch candles and both equal
 `rowMajor ind (resample tf stream)`.
 Contract instances proved so far (`Covered`): HLA, TR, OBV, SMA, EMA, RMA, WMA, VWMA, ROC,
-Counter, HL, Aroon, Donchian – see `C01_partial`, `C01_partial_tf`.  The full statement (all 27 kinds incl. composites,
-gap filling) is `C01_FULL`; what is missing is listed there.
+Counter, HL, Aroon, Donchian, Amorph (all 20 wrapped functions) – i.e. every shipped leaf class;
+see `C01_partial`, `C01_partial_tf`.  The full statement (composites, gap filling) is
+`C01_FULL`; what is missing is listed there.
 -/
 namespace Hex.C01
 open Hex
@@ -80,7 +81,7 @@ theorem schedule_independent_leaf_tf (tf : Int) (htf : 0 < tf) (ind : Ind F) (hl
 
 /-- **C01, partial: all covered kinds, base timeframe.**  `Covered name k` lists the leaf kinds
 whose contract is proved (HLA, TR, OBV, SMA, EMA, RMA, WMA, VWMA, ROC, Counter, HL, Aroon,
-Donchian – every shipped leaf class except the Amorph wrapper) with their
+Donchian, Amorph over all 20 analysis functions – every shipped leaf class) with their
 parameter conditions; for each of them, as the top-level indicator `mkTop k name round`, every
 append schedule ends with exactly the batch candles (same exception if a reading raises). -/
 theorem C01_partial (k : Kind F) (name : String) (round : Nat) (hk : Covered name k)
@@ -123,10 +124,9 @@ structure WellFormed (xs : List (Candle F)) : Prop where
 /-- **C01 at full strength**: every shipped kind (27 classes, composites included, as built by
 `mkTop`), every parameter choice with positive periods, base or collapsing timeframe, with or
 without gap filling, every construction prefix and append schedule.
-NOT proved yet.  Missing: (i) the contract for Amorph-wrapped analysis functions: `local_` is
-`Ana.runAnalysis_causal`, what is missing is `key_indep` (key locality of the 20 analysis
-functions); (ii) the framework refinement for trees with sub-indicators / managed helpers
-(`calcSubs`, `setManagedReading`), where ADX is known to violate the statement (see
+NOT proved yet.  Missing: (i) inputs that are other indicators' readings (here: candle
+attributes only, the stream being raw); (ii) the framework refinement for trees with
+sub-indicators / managed helpers (`calcSubs`, `setManagedReading`), where ADX is known to violate the statement (see
 known_findings); (iii) gap filling (`fill = true`): the refinement of `fillMissing` on a
 decorated bucket list (the timeframe case without fill is `schedule_independent_leaf_tf`).
 Note that with a timeframe the statement can only hold for histories that run: a reading on the
@@ -167,6 +167,8 @@ example : candlesOf (runIndicator demoSMA {} [] [demo.take 1, [], demo.drop 1])
 example : Covered (F := Int) "EMA_3" (.ema 3 "close" (.int 2)) := .ema 3 "close" _ (by decide) (by decide)
 example : Covered (F := Int) "VWMA_4" (.vwma 4) := .vwma 4 (by decide) (by decide)
 example : Covered (F := Int) "ROC" (.roc 1 "high") := .roc 1 "high" (by decide) (by decide) (by decide)
+example : Covered (F := Int) "rising_3" (.amorph (.rising "close" 3)) := .amorph _ (by decide)
+example : Covered (F := Int) "hammer" (.amorph (.hammer none)) := .amorph _ (by decide)
 /-- the SMA column of a run (`none` if the run raised) -/
 def smaColumn (r : PyM (List (Candle Int))) : Option (List (Option Int)) :=
   match r with
